@@ -273,6 +273,9 @@ func runC17(c *Ctx) {
 		"(worse: one shared by all servers of the process) answers for a sid the table does not hold: a closed session is served again, or server B serves server A's session", 1)
 	lookupsFromGuardedMaps(c, "C17-D6", []storeGetter{{"eio", "socketStore", "get"}})
 
+	c.Rule("C17-D7", "a closed session is not altered — not by a late UPGRADE either (F57, shared with C06-D12)", 3)
+	closedSocketAdoptsNoTransport(c, "C17-D7")
+
 	c.Rule("C17-D5", "a closed session is unknown afterwards: whatever the close reason, the Engine.IO close body calls or defers onClose(s.id) on every path, and newSocket wires that callback to the store's delete "+
 		"— a session that ended by CLOSE packet, transport drop or buffer overflow and stays in the table keeps answering its sid with 200 instead of error 1 (shared with C06-D2)", 2)
 	{
